@@ -44,6 +44,15 @@ func (v *valueBigInt) ToNumber() Value {
 	panic(typeError("Cannot convert a BigInt value to a number"))
 }
 
+// toNumberValue is Number(bigint): the nearest double (ties to even), an infinity beyond the range.
+func (v *valueBigInt) toNumberValue() Value {
+	if (*big.Int)(v).IsInt64() {
+		return intToValue((*big.Int)(v).Int64())
+	}
+	f, _ := (*big.Int)(v).Float64()
+	return floatToValue(f)
+}
+
 func (v *valueBigInt) ToBoolean() bool {
 	return (*big.Int)(v).Sign() != 0
 }
@@ -81,7 +90,7 @@ func (v *valueBigInt) Equals(other Value) bool {
 		}
 		return bigInt.Cmp((*big.Int)(v)) == 0
 	case valueBool:
-		return (*big.Int)(v).Int64() == o.ToInteger()
+		return (*big.Int)(v).IsInt64() && (*big.Int)(v).Int64() == o.ToInteger()
 	case *Object:
 		return v.Equals(o.toPrimitiveNumber())
 	}
